@@ -141,6 +141,8 @@ inline void init(int argc, char** argv) {
 }
 
 inline bool thorough() { return ctx().tier == "thorough"; }
+// VERIF_DEEP=1: defect hunting beyond the registered thorough bounds (not a registered tier; used with --deadline by hand)
+inline bool deep() { static int d = -1; if (d < 0) { const char* e = getenv("VERIF_DEEP"); d = (e && *e && *e != '0') ? 1 : 0; } return d == 1 && thorough(); }
 inline bool verbose()  { return ctx().verbose; }
 inline bool replaying() { return ctx().have_replay; }
 inline const std::string& replay_case() { return ctx().replay; }
